@@ -11,6 +11,7 @@ Differential oracle on observable outputs (DESIGN §2/C07):
   judge        outputs(A) == outputs(B), ctx(A) == ctx(B)                     -> not-seed-determined (instances disagree)
                re-injecting s into A replays outputs and ctx                   -> not-seed-determined (replay differs)
                global NumPy / Torch / Python state bit-identical around calls  -> global-rng-consumed
+               ... and around every set_rng(explicit generator) itself         -> injection-consumes-global-rng
                an in-domain construction / injection / call raising           -> *-crash / *-refused
 
 A violating composition is minimised over its sub-trees (each sub-tree is a self-contained spec): the reported witness is
@@ -48,11 +49,12 @@ ASSUMPTIONS = [
     "aspect-preserving resize, and cost, are outside the seeding property)",
     "pipelines whose constructor crashes (BYOLTransform(norm='imagenet'), MAEFinetuneTransform()) are probed and reported in the notes, "
     "not judged; they are judged automatically once they can be constructed",
-    "consumption of global RNG state is judged around the calls after the injection (constructors and worker_init_fn draw from the "
-    "global NumPy RNG by design)",
+    "consumption of global RNG state is judged around every set_rng(explicit generator) (first injection, injection after a history, "
+    "re-injection) and around every call after it; constructors and worker_init_fn draw from the global NumPy RNG by design and are "
+    "outside the sentinel windows",
     "seed sensitivity (another seed gives another output) is evidence that the workload draws at all, never a verdict",
 ]
-MONITORS = ["instance_pairs_compared", "outputs_compared", "ctx_entries_compared", "replays_compared", "sentinel_windows",
+MONITORS = ["instance_pairs_compared", "outputs_compared", "ctx_entries_compared", "replays_compared", "sentinel_windows", "injection_windows",
             "seed_sensitive_cases", "histories_before_injection"]
 
 BOUNDARY_SEEDS = [0, 1, 5, 2 ** 32 - 1, 2 ** 32, 2 ** 63 - 1]
@@ -206,6 +208,23 @@ def evaluate(spec, stats=None, until=PH_EVIDENCE):
     def fail(phase, default):
         return dict(_finding(col, default), phase=phase)
 
+    def inject(t, seed, tag, phase, what):
+        """set_rng(explicit generator) under the global-RNG sentinel: handing over a generator must not touch the
+        process-global NumPy / Torch / Python streams (construction may, by design of the library) -> None | finding"""
+        gen = np.random.default_rng(seed)
+        before = S.snapshot()
+        ok_, _ = call_real(col, lambda: t.set_rng(gen), crash_key="set_rng-crash", what=what)
+        after = S.snapshot()
+        if not ok_:
+            return fail(phase, "set_rng")
+        bump("injection_windows")
+        d = S.diff(before, after)
+        if d:
+            return {"kind": f"injection-consumes-global-rng:{'+'.join(d)}", "phase": phase,
+                    "what": f"{what} on instance {tag} changed the process-global {d} RNG state: injecting an explicit generator "
+                            f"consumed global randomness"}
+        return None
+
     inputs = [H.make_input(T, xs) for xs in spec["x_seeds"]]
     g1, g2 = spec["g"]
     pert = spec["perturb"]
@@ -216,9 +235,9 @@ def evaluate(spec, stats=None, until=PH_EVIDENCE):
     ok, A = call_real(col, lambda: H.build_composition(tree), crash_key="construct-crash", what="constructing the transform")
     if not ok:
         return fail(PH_SETUP, "construct")
-    ok, _ = call_real(col, lambda: A.set_rng(np.random.default_rng(spec["s"])), crash_key="set_rng-crash", what="set_rng(default_rng(s))")
-    if not ok:
-        return fail(PH_SETUP, "set_rng")
+    f_ = inject(A, spec["s"], "A", PH_SETUP, "set_rng(default_rng(s))")
+    if f_ is not None:
+        return f_
 
     # ---- instance B: global seed g2, different amount of global draws, call history before the injection
     _seed_globals(g2)
@@ -233,9 +252,9 @@ def evaluate(spec, stats=None, until=PH_EVIDENCE):
         if not ok_:
             return fail(PH_SETUP, "call")
     if h["pre_seed"] is not None:
-        ok, _ = call_real(col, lambda: B.set_rng(np.random.default_rng(h["pre_seed"])), crash_key="set_rng-crash", what="set_rng(other seed)")
-        if not ok:
-            return fail(PH_SETUP, "set_rng")
+        f_ = inject(B, h["pre_seed"], "B", PH_SETUP, "set_rng(other seed)")
+        if f_ is not None:
+            return f_
         nh += 1
         for j in range(h["pre_calls"]):
             ok_, _, _ = _call(col, B, H.make_input(T, 2 * 10 ** 7 + j), "call")
@@ -249,9 +268,10 @@ def evaluate(spec, stats=None, until=PH_EVIDENCE):
         nh += 1
     if nh:
         bump("histories_before_injection")
-    ok, _ = call_real(col, lambda: B.set_rng(np.random.default_rng(spec["s"])), crash_key="set_rng-crash", what="set_rng(default_rng(s)) after a history")
-    if not ok:
-        return fail(PH_SETUP, "set_rng")
+    _seed_globals(pert[0] + 5)  # injection under yet another global state
+    f_ = inject(B, spec["s"], "B", PH_SETUP, "set_rng(default_rng(s)) after a history")
+    if f_ is not None:
+        return f_
     if until < PH_PAIR:
         return None
 
@@ -294,9 +314,9 @@ def evaluate(spec, stats=None, until=PH_EVIDENCE):
         return None
 
     # ---- re-injection replays
-    ok, _ = call_real(col, lambda: A.set_rng(np.random.default_rng(spec["s"])), crash_key="set_rng-crash", what="re-injecting the seed")
-    if not ok:
-        return fail(PH_REPLAY, "set_rng")
+    f_ = inject(A, spec["s"], "A", PH_REPLAY, "re-injecting the seed")
+    if f_ is not None:
+        return f_
     for i in range(len(inputs)):
         r_ = one(A, "A(replay)", i, 2, PH_REPLAY)
         if isinstance(r_, dict):
@@ -310,9 +330,9 @@ def evaluate(spec, stats=None, until=PH_EVIDENCE):
         return None
 
     # ---- evidence: does the seed matter at all (i.e. did the workload draw)?
-    ok, _ = call_real(col, lambda: B.set_rng(np.random.default_rng(spec["s_alt"])), crash_key="set_rng-crash", what="injecting another seed")
-    if not ok:
-        return fail(PH_EVIDENCE, "set_rng")
+    f_ = inject(B, spec["s_alt"], "B", PH_EVIDENCE, "injecting another seed")
+    if f_ is not None:
+        return f_
     for i in range(len(inputs)):
         r_ = one(B, "B(other seed)", i, 3, PH_EVIDENCE)
         if isinstance(r_, dict):
@@ -362,7 +382,8 @@ def _minimise(spec, finding):
     out = []
     # construction / injection failures do not depend on draws: the same phase decides for every sub-tree, one round is enough
     setup_failure = finding["kind"].split(":")[0] in ("construct-crash", "construct-refused", "set_rng-crash", "set_rng-refused",
-                                                      "worker_init-crash", "worker_init-refused") and finding["phase"] == PH_SETUP
+                                                      "worker_init-crash", "worker_init-refused",
+                                                      "injection-consumes-global-rng") and finding["phase"] == PH_SETUP
     until = PH_SETUP if setup_failure else max(finding["phase"], PH_PAIR)
 
     def descend(cur_spec, cur_finding):
